@@ -281,7 +281,7 @@ func genOidcJSON(r *Run, full bool, wild bool) J {
 	if rng.Intn(3) == 0 {
 		// the logout path collides with one of the callback paths of the grammar every fifth time - in whichever fragment
 		// (default, override, plain filter) this object ends up, so that collisions across the merge occur as well
-		lo := J{"path": pick(rng, []string{"/logout", "/logout", "/logout", "/app/logout", pick(rng, []string{"/callback", "/cb", "/oauth/callback"})}), "redirect_uri": pick(rng, []string{"https://idp/logout", ""})}
+		lo := J{"path": pick(rng, []string{"/logout", "/logout", "/logout", "/app/logout", pick(rng, []string{"/callback", "/cb", "/oauth/callback"})}), "redirect_uri": pick(rng, []string{"https://idp/logout", "https://idp/logout", "", "https://idp/end?x=1", "ht tp://idp/x", "http://[::1/x", "http://idp/%zz", "://idp", "/relative", "idp.example.com/logout"})}
 		if rng.Intn(6) == 0 {
 			delete(lo, "path") // an override may carry only part of the logout message (merged field by field)
 		}
@@ -463,6 +463,31 @@ func directedOverrideDocs() []any {
 		{"cookie_name_prefix": "a b"}, {"cookie_name_prefix": "ok"}, {"redis_session_store_config": J{"server_uri": ""}}, {"proxy_uri": "%zz"},
 	}
 	var docs []any
+	// chain compositions: at most one OIDC filter per chain, wherever the others stand
+	{
+		mock := J{"mock": J{"allow": true}}
+		oi := func(cid string) J { d := base(); d["client_id"] = cid; return J{"oidc": d} }
+		ov := func(cid string) J { return J{"oidc_override": J{"client_id": cid}} }
+		mk := func(def bool, filters ...J) any {
+			d := J{"listen_address": "0.0.0.0", "listen_port": 8080, "log_level": "debug", "chains": []J{{"name": "app", "filters": filters}}}
+			if def {
+				d["default_oidc_config"] = base()
+			}
+			return d
+		}
+		docs = append(docs, mk(false, oi("a")), mk(false, mock, oi("a")), mk(false, oi("a"), mock), mk(false, oi("a"), oi("b")), mk(false, oi("a"), mock, oi("b")),
+			mk(false, mock, oi("a"), mock, mock, oi("b")), mk(false, oi("a"), mock, mock), mk(true, ov("a"), ov("b")), mk(true, ov("a"), mock, ov("b")),
+			mk(true, mock, ov("a"), mock), mk(true, ov("a"), mock, mock, ov("b"), mock), mk(true, oi("a")), mk(true, mock, oi("a")), mk(false, ov("a")), mk(false, mock, ov("a")))
+	}
+	// logout redirect URIs of every kind, in the filter itself and arriving through the merge
+	for _, ru := range []string{"https://idp/logout", "", "ht tp://idp/x", "http://[::1/x", "http://idp/%zz", "://idp", "/relative", "idp.example.com/logout", "http://idp/\u0001"} {
+		d := base()
+		d["logout"] = J{"path": "/session", "redirect_uri": ru}
+		docs = append(docs, J{"listen_address": "0.0.0.0", "listen_port": 8080, "log_level": "debug", "chains": []J{{"name": "app", "filters": []J{{"oidc": d}}}}})
+		docs = append(docs, J{"listen_address": "0.0.0.0", "listen_port": 8080, "log_level": "debug", "default_oidc_config": d, "chains": []J{{"name": "app", "filters": []J{{"oidc_override": J{"client_id": "x"}}}}}})
+		d2 := base()
+		docs = append(docs, J{"listen_address": "0.0.0.0", "listen_port": 8080, "log_level": "debug", "default_oidc_config": d2, "chains": []J{{"name": "app", "filters": []J{{"oidc_override": J{"logout": J{"redirect_uri": ru}}}}}}})
+	}
 	for _, variant := range []string{"default-has-logout", "default-without-logout", "logout-only-in-override"} {
 		for _, ov := range overrides {
 			d := base()
